@@ -47,7 +47,7 @@ def cheby1_seq(ns, x):
     ns = list(ns)
     cs = 1/jacobi_seq(ns, -.5, -.5, np.ones(1, dtype=x.dtype))
     seq = jacobi_seq(ns, -.5, -.5, x)
-    return seq*cs
+    return seq*cs.reshape((-1,) + (1,)*x.ndim)  # one constant per order, broadcast over every coordinate axis
 
 
 def cheby1_der(n, x):
@@ -88,7 +88,7 @@ def cheby1_der_seq(ns, x):
     ns = list(ns)
     cs = 1/jacobi_seq(ns, -.5, -.5, np.ones(1, dtype=x.dtype))
     seq = jacobi_der_seq(ns, -.5, -.5, x)
-    return seq*cs
+    return seq*cs.reshape((-1,) + (1,)*x.ndim)  # one constant per order, broadcast over every coordinate axis
 
 
 def cheby2(n, x):
@@ -135,7 +135,7 @@ def cheby2_seq(ns, x):
     ns = np.asarray(ns)
     cs = (ns+1)/np.squeeze(jacobi_seq(ns, .5, .5, np.ones(1, dtype=x.dtype)))
     seq = jacobi_seq(ns, .5, .5, x)
-    return seq*cs[:, np.newaxis]
+    return seq*cs.reshape((-1,) + (1,)*x.ndim)  # one constant per order, broadcast over every coordinate axis
 
 
 def cheby2_der(n, x):
@@ -176,7 +176,7 @@ def cheby2_der_seq(ns, x):
     ns = np.asarray(ns)
     cs = (ns + 1)/np.squeeze(jacobi_seq(ns, .5, .5, np.ones(1, dtype=x.dtype)))
     seq = jacobi_der_seq(ns, .5, .5, x)
-    return seq*cs[:, np.newaxis]
+    return seq*cs.reshape((-1,) + (1,)*x.ndim)  # one constant per order, broadcast over every coordinate axis
 
 
 def cheby3(n, x):
@@ -217,7 +217,7 @@ def cheby3_seq(ns, x):
     ns = list(ns)
     cs = 1/jacobi_seq(ns, -.5, .5, np.ones(1, dtype=x.dtype))
     seq = jacobi_seq(ns, -.5, .5, x)
-    return seq*cs
+    return seq*cs.reshape((-1,) + (1,)*x.ndim)  # one constant per order, broadcast over every coordinate axis
 
 
 def cheby3_der(n, x):
@@ -258,7 +258,7 @@ def cheby3_der_seq(ns, x):
     ns = list(ns)
     cs = 1/jacobi_seq(ns, -.5, .5, np.ones(1, dtype=x.dtype))
     seq = jacobi_der_seq(ns, -.5, .5, x)
-    return seq*cs
+    return seq*cs.reshape((-1,) + (1,)*x.ndim)  # one constant per order, broadcast over every coordinate axis
 
 
 def cheby4(n, x):
@@ -299,7 +299,7 @@ def cheby4_seq(ns, x):
     ns = np.asarray(ns)
     cs = (2*ns+1)/np.squeeze(jacobi_seq(ns, .5, -.5, np.ones(1, dtype=x.dtype)))
     seq = jacobi_seq(ns, .5, -.5, x)
-    return seq*cs[:, np.newaxis]
+    return seq*cs.reshape((-1,) + (1,)*x.ndim)  # one constant per order, broadcast over every coordinate axis
 
 
 def cheby4_der(n, x):
@@ -340,4 +340,4 @@ def cheby4_der_seq(ns, x):
     ns = np.asarray(ns)
     cs = (2*ns+1)/np.squeeze(jacobi_seq(ns, .5, -.5, np.ones(1, dtype=x.dtype)))
     seq = jacobi_der_seq(ns, .5, -.5, x)
-    return seq*cs[:, np.newaxis]
+    return seq*cs.reshape((-1,) + (1,)*x.ndim)  # one constant per order, broadcast over every coordinate axis
